@@ -56,4 +56,49 @@ def step (tbl : P → T) (pdfOf : T → T) (F : D → T → T → R) (resetSf re
 def fresh (tbl : P → T) (pdfOf : T → T) (F : D → T → T → R) (p : P) (d : D) : R :=
   F d (tbl p) (pdfOf (tbl p))
 
+/-! ## table builds that can fail
+
+`tbl p = none`: the parameters are unusable and `compute_survival_factor` raises. `discard` says
+whether the property then leaves no table behind (`Gen.failedBuildDiscarded`, regenerated from the
+`try … except: self._sf = None; raise` in the source); otherwise the half-built table `junk` stays
+in the cache (the code before D28: an array of zeros). Every operation also reports whether the
+call returned (`true`) or raised (`false`). -/
+
+def ensureSfE (tbl : P → Option T) (discard : Bool) (junk : T) (s : HState P T D R) :
+    HState P T D R × Option T :=
+  match s.sf with
+  | some t => (s, some t)
+  | none =>
+    match tbl s.prm with
+    | some t => ({ s with sf := some t }, some t)
+    | none => (if discard then s else { s with sf := some junk }, none)
+
+def ensurePdfE (tbl : P → Option T) (pdfOf : T → T) (discard : Bool) (junk : T) (s : HState P T D R) :
+    HState P T D R × Option T :=
+  match s.pdf with
+  | some t => (s, some t)
+  | none =>
+    match ensureSfE tbl discard junk s with
+    | (s1, some sf) => ({ s1 with pdf := some (pdfOf sf) }, some (pdfOf sf))
+    | (s1, none) => (if discard then s1 else { s1 with pdf := some junk }, none)
+
+def stepE (tbl : P → Option T) (pdfOf : T → T) (F : D → T → T → R) (resetSf resetPdf discard : Bool)
+    (junk : T) (s : HState P T D R) : HOp P D → HState P T D R × Bool
+  | .setPrms p => ({ s with prm := p, sf := if resetSf then none else s.sf,
+                             pdf := if resetPdf then none else s.pdf }, true)
+  | .setDriver d => ({ s with driver := d }, true)
+  | .readSf => let r := ensureSfE tbl discard junk s; (r.1, r.2.isSome)
+  | .readPdf => let r := ensurePdfE tbl pdfOf discard junk s; (r.1, r.2.isSome)
+  | .compute =>
+    match ensureSfE tbl discard junk s with
+    | (s1, none) => (s1, false)
+    | (s1, some sf) =>
+      match ensurePdfE tbl pdfOf discard junk s1 with
+      | (s2, none) => (s2, false)
+      | (s2, some pdf) => ({ s2 with res := some (F s2.driver sf pdf) }, true)
+
+/-- a freshly built object with the same inputs: its `compute` raises iff the table build does -/
+def freshE (tbl : P → Option T) (pdfOf : T → T) (F : D → T → T → R) (p : P) (d : D) : Option R :=
+  (tbl p).map fun sf => F d sf (pdfOf sf)
+
 end Flodym.Hist
